@@ -860,6 +860,410 @@ theorem dispatch3_run (M : Meths) (env : Env) (hC : Consts env) (bs bf bc : PBlo
         rfl
 
 
+
+section sm2
+variable (start : Nat) (data : Bytes)
+
+/-- environment after `self.rx_frame_length = 0; self.timer_rx_cf.stop()` -/
+def idleEnv (env : Env) : Env := (env.set "self.rx_frame_length" (pint 0)).set "self.timer_rx_cf.start_time" pnone
+/-- the model state at the same point -/
+def idleSt (s : State) : State := { s with rxFrameLen := 0, timerCf := s.timerCf.stop }
+
+theorem rep_idle {s : State} {env : Env} (hR : Rep s env) : Rep (idleSt s) (idleEnv env) := by
+  unfold idleSt idleEnv; rep_tac hR
+theorem consts_idle {env : Env} (hC : Consts env) : Consts (idleEnv env) := by unfold idleEnv; consts_tac hC
+theorem pduCtx_idle {d : Decoded} {env : Env} (hP : PduCtx d env) : PduCtx d (idleEnv env) := by unfold idleEnv; pdu_tac hP
+
+/-- IDLE: the two statements before the dispatch on the frame type -/
+theorem idle_prefix (M : Meths) {s : State} {env : Env} (hM : ∀ args e, M.proc "self.timer_rx_cf.stop" args e = .ok (timerStopEnv e))
+    (hR : Rep s env) (hC : Consts env) (hst : s.rxState = .idle) :
+    execStmt M env st5 = execStmt M (idleEnv env) (dispatch3 sfI ffI cfI) := by
+  have hrs : env "self.rx_state" = some (.sc (.enum "RxState" "IDLE")) := by rw [hR.rxState, hst]; rfl
+  have hc : eval M env (.cmp .eq (.var "self.rx_state") (.var "self.RxState.IDLE")) = .ok (pbool true) := by
+    simp only [eval, hrs, hC.idle, ok_bind, evalCmp_eq, pvEq_enum_self]
+  rw [st5_shape, exec_ite M env _ _ _ _ hc]
+  simp only [if_true]
+  rw [idleBlk_shape, block_next M env _ _ _ rfl]
+  have h2 : execStmt M (env.set "self.rx_frame_length" (pint 0)) (.expr (.call "self.timer_rx_cf.stop" .nil))
+      = .ok (.next (idleEnv env)) := by
+    simp (disch := decide) only [execStmt, evalArgs, ok_bind, evalBuiltin_none, hM, timerStopEnv, idleEnv]
+  rw [block_next M _ _ _ _ h2, execBlock_single]
+
+/-- WAIT_CF: straight to the dispatch on the frame type -/
+theorem wait_prefix (M : Meths) {s : State} {env : Env} (hR : Rep s env) (hC : Consts env) (hst : s.rxState = .waitCf) :
+    execStmt M env st5 = execStmt M env (dispatch3 sfW ffW cfW) := by
+  have hrs : env "self.rx_state" = some (.sc (.enum "RxState" "WAIT_CF")) := by rw [hR.rxState, hst]; rfl
+  have hc : eval M env (.cmp .eq (.var "self.rx_state") (.var "self.RxState.IDLE")) = .ok (pbool false) := by
+    simp only [eval, hrs, hC.idle, ok_bind, evalCmp_eq, pvEq_idle_wait]
+  have hc2 : eval M env (.cmp .eq (.var "self.rx_state") (.var "self.RxState.WAIT_CF")) = .ok (pbool true) := by
+    simp only [eval, hrs, hC.waitCf, ok_bind, evalCmp_eq, pvEq_enum_self]
+  rw [st5_shape, exec_ite M env _ _ _ _ hc]
+  simp only [Bool.false_eq_true, if_false]
+  rw [execBlock_single, exec_ite M env _ _ _ _ hc2]
+  simp only [if_true]
+  rw [waitBlk_shape, execBlock_single]
+
+
+local notation "Ms" s:max => rxMethsOf (State.now s) (Cfg.tCf (State.cfg s)) start data
+
+theorem stop_lookup (now tCf : Nat) : ∀ args e, (rxMethsOf now tCf start data).proc "self.timer_rx_cf.stop" args e = .ok (timerStopEnv e) :=
+  (proc_lookups now tCf start data).2.2.1
+
+/-- what the state machine does to the object and the two result locals -/
+def SmOut (M : Meths) (env : Env) (s1 : State) (fc itx : Bool) : Prop :=
+  ∃ env', execStmt M env st5 = .ok (.next env') ∧ Rep s1 env' ∧
+    env' "frame_complete" = some (pbool fc) ∧ env' "immediate_tx_msg_required" = some (pbool itx)
+
+variable {s : State} {d : Decoded} {env : Env}
+
+/-- IDLE, Single Frame: delivered -/
+theorem sm_sf_idle (hR : Rep s env) (hC : Consts env) (hP : PduCtx d env)
+    (len : Nat) (dat : Bytes) (esc : Bool) (hd : d.pdu = .sf len dat esc) (hst : s.rxState = .idle)
+    (hitx : env "immediate_tx_msg_required" = some (pbool false)) :
+    SmOut (Ms s) env ((idleSt s).deliver dat) true false := by
+  have ht : idleEnv env "pdu.type" = some (pint (0 : Nat)) := by rw [(pduCtx_idle hP).type, hd]; rfl
+  have hdat : idleEnv env "pdu.data" = some (.bytes dat) := by rw [(pduCtx_idle hP).data, hd]; rfl
+  unfold SmOut
+  rw [idle_prefix _ (stop_lookup start data _ _) hR hC hst, dispatch3_run _ _ (consts_idle hC) _ _ _ 0 ht]
+  simp only [if_true, sfI, thenOf, idleDispatch, bhead, bdrop, idleBlk, st5, body, Src.TransportLayerLogic_p_process_rx]
+  rx_eval [hdat, bytes_bne_pnone']
+  refine ⟨_, rfl, ?_, ?_, ?_⟩
+  · exact ((rep_idle hR).setLocal "frame_complete" _ (by decide)).put dat
+  · loc_tac
+  · simp only [idleEnv]; loc_tac
+
+/-- IDLE, Consecutive Frame: `UnexpectedConsecutiveFrameError` -/
+theorem sm_cf_idle (hR : Rep s env) (hC : Consts env) (hP : PduCtx d env)
+    (sn : Nat) (dat : Bytes) (hd : d.pdu = .cf sn dat) (hst : s.rxState = .idle)
+    (hfc : env "frame_complete" = some (pbool false)) (hitx : env "immediate_tx_msg_required" = some (pbool false)) :
+    SmOut (Ms s) env ((idleSt s).error .UnexpectedConsecutiveFrame) false false := by
+  have ht : idleEnv env "pdu.type" = some (pint (2 : Nat)) := by rw [(pduCtx_idle hP).type, hd]; rfl
+  unfold SmOut
+  rw [idle_prefix _ (stop_lookup start data _ _) hR hC hst, dispatch3_run _ _ (consts_idle hC) _ _ _ 2 ht]
+  simp only [Nat.reduceEqDiff, if_false, if_true, cfI, thenOf, elseOf, idleDispatch, bhead, bdrop, idleBlk, st5, body,
+    Src.TransportLayerLogic_p_process_rx]
+  rx_eval []
+  refine ⟨_, rfl, ?_, ?_, ?_⟩
+  · exact (rep_idle hR).trig .UnexpectedConsecutiveFrame
+  · simp only [idleEnv]; loc_tac
+  · simp only [idleEnv]; loc_tac
+
+/-- WAIT_CF, Single Frame: delivered, reception aborted, `ReceptionInterruptedWithSingleFrameError` -/
+theorem sm_sf_wait (hR : Rep s env) (hC : Consts env) (hP : PduCtx d env)
+    (len : Nat) (dat : Bytes) (esc : Bool) (hd : d.pdu = .sf len dat esc) (hst : s.rxState = .waitCf)
+    (hitx : env "immediate_tx_msg_required" = some (pbool false)) :
+    SmOut (Ms s) env (((s.deliver dat).stopReceiving).error .InterruptedWithSingleFrame) true false := by
+  have ht : env "pdu.type" = some (pint (0 : Nat)) := by rw [hP.type, hd]; rfl
+  have hdat : env "pdu.data" = some (.bytes dat) := by rw [hP.data, hd]; rfl
+  unfold SmOut
+  rw [wait_prefix _ hR hC hst, dispatch3_run _ _ hC _ _ _ 0 ht]
+  simp only [if_true, sfW, thenOf, waitDispatch, bhead, bdrop, waitBlk, waitStmt, elseOf, st5, body,
+    Src.TransportLayerLogic_p_process_rx]
+  rx_eval [hdat, bytes_bne_pnone']
+  refine ⟨_, rfl, ?_, ?_, ?_⟩
+  · exact (((hR.setLocal "frame_complete" _ (by decide)).put dat).stopRecv).trig .InterruptedWithSingleFrame
+  · loc_tac
+  · loc_tac
+
+
+/-- IDLE, First Frame: `_start_reception_after_first_frame_if_valid` -/
+theorem sm_ff_idle (hR : Rep s env) (hC : Consts env) (hP : PduCtx d env) (hpdu : env "pdu" = some (.meth "pdu"))
+    (len : Nat) (dat : Bytes) (esc : Bool) (hd : d.pdu = .ff len dat esc) (hst : s.rxState = .idle)
+    (hfc : env "frame_complete" = some (pbool false)) (hitx : env "immediate_tx_msg_required" = some (pbool false)) :
+    SmOut (Ms s) env ((idleSt s).startReception len dat d.rxDl).1 false ((idleSt s).startReception len dat d.rxDl).2 := by
+  have ht : idleEnv env "pdu.type" = some (pint (1 : Nat)) := by rw [(pduCtx_idle hP).type, hd]; rfl
+  have hlen : idleEnv env "pdu.length" = some (pint len) := by rw [(pduCtx_idle hP).length, hd]; rfl
+  have hdat : idleEnv env "pdu.data" = some (.bytes dat) := by rw [(pduCtx_idle hP).data, hd]; rfl
+  have hpdu' : idleEnv env "pdu" = some (.meth "pdu") := by simp only [idleEnv]; loc_tac
+  have hitx' : idleEnv env "immediate_tx_msg_required" = some (pbool false) := by simp only [idleEnv]; loc_tac
+  have hfc' : idleEnv env "frame_complete" = some (pbool false) := by simp only [idleEnv]; loc_tac
+  have h0 := rep_idle hR
+  have hmx : idleEnv env "self.params.max_frame_size" = some (pint s.cfg.maxFrameSize) := h0.maxFrameSize
+  have hsr := Rep.startRec h0 len d.rxDl dat
+  have hstarted : startRecEnv s.now s.cfg.tCf len d.rxDl dat s.cfg.maxFrameSize (idleEnv env) "started"
+      = some (pbool ((idleSt s).startReception len dat d.rxDl).2) := hsr.2
+  unfold SmOut
+  rw [idle_prefix _ (stop_lookup start data _ _) hR hC hst, dispatch3_run _ _ (consts_idle hC) _ _ _ 1 ht]
+  simp only [Nat.reduceEqDiff, if_false, if_true, ffI, thenOf, elseOf, idleDispatch, bhead, bdrop, idleBlk, st5, body,
+    Src.TransportLayerLogic_p_process_rx]
+  rx_eval [hpdu', startRecProc, hlen, (pduCtx_idle hP).rxDl, hdat, hmx, startRecEnv_frame, hitx', hstarted]
+  refine ⟨_, rfl, ?_, ?_, ?_⟩
+  · exact hsr.1.setLocal _ _ (by decide)
+  · simp (disch := decide) only [set_apply, String.reduceEq, ↓reduceIte, startRecEnv_frame, hfc']
+  · loc_tac
+
+/-- WAIT_CF, First Frame: the same, then `ReceptionInterruptedWithFirstFrameError` -/
+theorem sm_ff_wait (hR : Rep s env) (hC : Consts env) (hP : PduCtx d env) (hpdu : env "pdu" = some (.meth "pdu"))
+    (len : Nat) (dat : Bytes) (esc : Bool) (hd : d.pdu = .ff len dat esc) (hst : s.rxState = .waitCf)
+    (hfc : env "frame_complete" = some (pbool false)) (hitx : env "immediate_tx_msg_required" = some (pbool false)) :
+    SmOut (Ms s) env ((s.startReception len dat d.rxDl).1.error .InterruptedWithFirstFrame) false
+      (s.startReception len dat d.rxDl).2 := by
+  have ht : env "pdu.type" = some (pint (1 : Nat)) := by rw [hP.type, hd]; rfl
+  have hlen : env "pdu.length" = some (pint len) := by rw [hP.length, hd]; rfl
+  have hdat : env "pdu.data" = some (.bytes dat) := by rw [hP.data, hd]; rfl
+  have hsr := Rep.startRec hR len d.rxDl dat
+  have hstarted := hsr.2
+  unfold SmOut
+  rw [wait_prefix _ hR hC hst, dispatch3_run _ _ hC _ _ _ 1 ht]
+  simp only [Nat.reduceEqDiff, if_false, if_true, ffW, thenOf, waitDispatch, bhead, bdrop, waitBlk, waitStmt, elseOf, st5, body,
+    Src.TransportLayerLogic_p_process_rx]
+  rx_eval [hpdu, startRecProc, hlen, hP.rxDl, hdat, hR.maxFrameSize, startRecEnv_frame, hitx, hstarted]
+  refine ⟨_, rfl, ?_, ?_, ?_⟩
+  · exact (hsr.1.setLocal _ _ (by decide)).trig .InterruptedWithFirstFrame
+  · simp (disch := decide) only [set_apply, String.reduceEq, ↓reduceIte, startRecEnv_frame, hfc]
+  · loc_tac
+
+
+end sm2
+
+
+macro "loc_tac2" : tactic =>
+  `(tactic| (simp only [stopRecvEnv, trigEnv, putEnv, emptyBufEnv, stopFcEnv, timerStopEnv, timerStartEnv, startCfEnv, reqFcEnv,
+      set_apply, String.reduceEq, ↓reduceIte] <;> try assumption))
+
+section cfwait
+variable (start : Nat) (data : Bytes)
+local notation "Ms" s:max => rxMethsOf (State.now s) (Cfg.tCf (State.cfg s)) start data
+variable {s : State} {d : Decoded} {env : Env}
+
+theorem band_seq (n : Nat) : evalBinop .band (pint ((n : Int) + 1)) (pint 15) = .ok (pint (((n + 1) % 16 : Nat) : Int)) := by
+  have e : ((n : Int) + 1) = ((n + 1 : Nat) : Int) := by omega
+  rw [e, band15_ev]
+
+theorem natCast_beq (a b : Nat) : ((a : Int) == (b : Int)) = (a == b) := by
+  rw [Bool.eq_iff_iff]; simp only [beq_iff_eq]; omega
+
+/-- environment after `expected_seqnum = (self.last_seqnum + 1) & 0xF` -/
+def seqEnv (s : State) (env : Env) : Env := env.set "expected_seqnum" (pint (((s.lastSeq + 1) % 16 : Nat) : Int))
+
+/-- WAIT_CF, Consecutive Frame: up to the test of the sequence number -/
+theorem cfw_prefix (hR : Rep s env) (hC : Consts env) (hP : PduCtx d env)
+    (sn : Nat) (dat : Bytes) (hd : d.pdu = .cf sn dat) (hst : s.rxState = .waitCf) :
+    execStmt (Ms s) env st5 = execBlock (Ms s) (seqEnv s env) (if sn = (s.lastSeq + 1) % 16 then cfOk else cfBad) := by
+  have ht : env "pdu.type" = some (pint (2 : Nat)) := by rw [hP.type, hd]; rfl
+  have hsn : env "pdu.seqnum" = some (pint sn) := by rw [hP.seqnum, hd]; rfl
+  rw [wait_prefix _ hR hC hst, dispatch3_run _ _ hC _ _ _ 2 ht]
+  simp only [Nat.reduceEqDiff, if_false, if_true]
+  have h1 : execStmt (Ms s) env (.assign "expected_seqnum" (.binop .band (.binop .add (.var "self.last_seqnum") (.int (1))) (.int (15))))
+      = .ok (.next (seqEnv s env)) := by
+    rx_eval [hR.lastSeq, evalBinop_add, band_seq, seqEnv]
+  rw [cfW_shape, block_next _ _ _ _ _ h1, execBlock_single]
+  have hc : eval (Ms s) (seqEnv s env) (.cmp .eq (.var "pdu.seqnum") (.var "expected_seqnum"))
+      = .ok (pbool (decide (sn = (s.lastSeq + 1) % 16))) := by
+    rx_eval [seqEnv, hsn, natCast_beq]
+    congr 2
+  rw [exec_ite _ _ _ _ _ _ hc]
+  by_cases h : sn = (s.lastSeq + 1) % 16
+  · simp only [h, decide_true, if_true]
+  · simp only [h, decide_false, if_false, Bool.false_eq_true]
+
+
+/-- WAIT_CF, Consecutive Frame, wrong sequence number: reception aborted, `WrongSequenceNumberError` -/
+theorem sm_cf_wait_bad (hR : Rep s env) (hC : Consts env) (hP : PduCtx d env)
+    (sn : Nat) (dat : Bytes) (hd : d.pdu = .cf sn dat) (hst : s.rxState = .waitCf) (hsn : sn ≠ (s.lastSeq + 1) % 16)
+    (hfc : env "frame_complete" = some (pbool false)) (hitx : env "immediate_tx_msg_required" = some (pbool false)) :
+    SmOut (Ms s) env ((s.stopReceiving).error .WrongSequenceNumber) false false := by
+  have hsq0 : env "pdu.seqnum" = some (pint sn) := by rw [hP.seqnum, hd]; rfl
+  have hsq : seqEnv s env "pdu.seqnum" = some (pint sn) := by simp only [seqEnv]; loc_tac
+  unfold SmOut
+  rw [cfw_prefix start data hR hC hP sn dat hd hst]
+  simp only [hsn, if_false, cfBad, seqStmt, cfW, thenOf, elseOf, waitDispatch, bhead, bdrop, waitBlk, waitStmt, st5, body,
+    Src.TransportLayerLogic_p_process_rx]
+  rx_eval [hsq, pint_bne_pnone]
+  refine ⟨_, rfl, ?_, ?_, ?_⟩
+  · exact ((((hR.setLocal "expected_seqnum" _ (by decide)).stopRecv).setLocal "received" _ (by decide)).setLocal "received" _
+      (by decide)).trig .WrongSequenceNumber
+  · simp only [seqEnv]; loc_tac2
+  · simp only [seqEnv]; loc_tac2
+
+
+theorem chgStmt_shape : chgStmt =
+    .ite (.and_ (.cmp .ne (.var "pdu.rx_dl") (.var "self.actual_rxdl")) (.cmp .lt (.var "pdu.rx_dl") (.var "bytes_to_receive")))
+      (.cons (.expr (.call "self._trigger_error" (.cons (.call "isotp.errors.ChangingInvalidRXDLError"
+          (.cons (.call "__format__" (.cons (.var "pdu.rx_dl") (.cons (.var "self.actual_rxdl") .nil))) .nil)) .nil)))
+        (.cons (.ret (.call "self.ProcessRxReport#immediate_tx_required#frame_received" (.cons .ff (.cons .ff .nil)))) .nil))
+      .nil := rfl
+
+/-- the `ChangingInvalidRXDLError` check, in any environment -/
+theorem chg_run (now tCf : Nat) (E : Env) (rxDl btr : Nat) (a : Option Nat) (h1 : E "pdu.rx_dl" = some (pint rxDl))
+    (h2 : E "self.actual_rxdl" = some (optPV a)) (h3 : E "bytes_to_receive" = some (pint btr)) :
+    execStmt (rxMethsOf now tCf start data) E chgStmt =
+      if (some rxDl != a && decide (rxDl < btr)) = true then
+        .ok (.returned (.list [.py (.bool false), .py (.bool false)]) (trigEnv "ChangingInvalidRXDLError" E))
+      else .ok (.next E) := by
+  rw [chgStmt_shape]
+  by_cases hA : a = some rxDl
+  · have hA' : (a == some rxDl) = true := by simp [hA]
+    have hm : (some rxDl != a) = false := by simp [hA]
+    rx_eval [h1, h2, pvEq_pint_optPV, hA', hm, Bool.not_true, Bool.false_and]
+  · have hA' : (a == some rxDl) = false := by simp [hA]
+    have hm : (some rxDl != a) = true := by simp [bne, Ne.symm hA]
+    by_cases hB : rxDl < btr
+    · have hB' : decide ((rxDl : Int) < (btr : Int)) = true := by simp; omega
+      rx_eval [h1, h2, h3, pvEq_pint_optPV, hA', hm, Bool.not_false, cmp_lt_pint, hB', hB, decide_true, Bool.and_self]
+      rfl
+    · have hB' : decide ((rxDl : Int) < (btr : Int)) = false := by simp; omega
+      rx_eval [h1, h2, h3, pvEq_pint_optPV, hA', hm, Bool.not_false, cmp_lt_pint, hB', hB, decide_false, Bool.and_false]
+
+
+/-- `bytes_to_receive` -/
+def btrOf (s : State) : Nat := s.rxFrameLen - s.rxBuf.length
+def btrEnv (s : State) (env : Env) : Env := (seqEnv s env).set "bytes_to_receive" (pint (btrOf s : Nat))
+/-- the model state after `_start_rx_cf_timer(); self.last_seqnum = pdu.seqnum; self._append_rx_data(pdu.data[:bytes_to_receive])` -/
+def cf5St (s : State) (sn : Nat) (dat : Bytes) : State :=
+  { s.startRxCfTimer with lastSeq := sn, rxBuf := s.startRxCfTimer.rxBuf ++ dat.take (btrOf s) }
+def cf5Env (s : State) (sn : Nat) (dat : Bytes) (env : Env) : Env :=
+  ((startCfEnv s.now s.cfg.tCf (btrEnv s env)).set "self.last_seqnum" (pint sn)).set
+    "self.rx_buffer" (.bytes (s.rxBuf ++ dat.take (btrOf s)))
+
+theorem rep_cf5 (hR : Rep s env) (sn : Nat) (dat : Bytes) : Rep (cf5St s sn dat) (cf5Env s sn dat env) := by
+  unfold cf5St cf5Env btrEnv seqEnv State.startRxCfTimer; rep_tac hR
+
+/-- WAIT_CF, Consecutive Frame with the expected sequence number: up to the completeness test -/
+theorem cfOk_run (hR : Rep s env) (hP : PduCtx d env) (sn : Nat) (dat : Bytes) (hd : d.pdu = .cf sn dat)
+    (hinv : s.rxBuf.length ≤ s.rxFrameLen) :
+    execBlock (Ms s) (seqEnv s env) cfOk =
+      if (some d.rxDl != s.actualRxdl && decide (d.rxDl < btrOf s)) = true then
+        .ok (.returned (.list [.py (.bool false), .py (.bool false)]) (trigEnv "ChangingInvalidRXDLError" (btrEnv s env)))
+      else execBlock (Ms s) (cf5Env s sn dat env)
+        (if s.rxFrameLen ≤ (s.rxBuf ++ dat.take (btrOf s)).length then complBlk else moreBlk) := by
+  have hsub : (s.rxFrameLen : Int) - (s.rxBuf.length : Int) = ((btrOf s : Nat) : Int) := by unfold btrOf; omega
+  have h1 : execStmt (Ms s) (seqEnv s env) (.assign "bytes_to_receive" (.binop .sub (.var "self.rx_frame_length")
+      (.call "len" (.cons (.var "self.rx_buffer") .nil)))) = .ok (.next (btrEnv s env)) := by
+    rx_eval [seqEnv, hR.rxFrameLen, hR.rxBuf, evalBinop_sub, hsub, btrEnv]
+  rw [cfOk_shape, block_next _ _ _ _ _ h1]
+  have hrx : btrEnv s env "pdu.rx_dl" = some (pint d.rxDl) := by simp only [btrEnv, seqEnv]; rw [← hP.rxDl]; loc_tac
+  have hac : btrEnv s env "self.actual_rxdl" = some (optPV s.actualRxdl) := by
+    simp only [btrEnv, seqEnv]; rw [← hR.actualRxdl]; loc_tac
+  have hbt : btrEnv s env "bytes_to_receive" = some (pint (btrOf s : Nat)) := by simp only [btrEnv]; loc_tac
+  have h2 := chg_run start data s.now s.cfg.tCf (btrEnv s env) d.rxDl (btrOf s) s.actualRxdl hrx hac hbt
+  by_cases hchg : (some d.rxDl != s.actualRxdl && decide (d.rxDl < btrOf s)) = true
+  · simp only [hchg, if_true] at h2 ⊢
+    rw [block_ret _ _ _ _ _ _ h2]
+  · simp only [hchg] at h2 ⊢
+    rw [block_next _ _ _ _ _ h2]
+    have hdat0 : env "pdu.data" = some (.bytes dat) := by rw [hP.data, hd]; rfl
+    have hsn0 : env "pdu.seqnum" = some (pint sn) := by rw [hP.seqnum, hd]; rfl
+    have hbuf0 := hR.rxBuf
+    have hfl0 := hR.rxFrameLen
+    rx_eval [btrEnv, seqEnv, hdat0, hsn0, hbuf0, hfl0, natIdx_nat, extendProc, cmp_ge_pint]
+    by_cases hc : s.rxFrameLen ≤ (s.rxBuf ++ dat.take (btrOf s)).length
+    · have hc' : decide ((s.rxFrameLen : Int) ≤ ((s.rxBuf ++ dat.take (btrOf s)).length : Int)) = true := by
+        simp only [decide_eq_true_eq]; omega
+      simp only [hc, hc', if_true]; rfl
+    · have hc' : decide ((s.rxFrameLen : Int) ≤ ((s.rxBuf ++ dat.take (btrOf s)).length : Int)) = false := by
+        simp only [decide_eq_false_iff_not]; omega
+      simp only [hc, hc', if_false, Bool.false_eq_true]; rfl
+
+
+theorem cf5Env_local (s : State) (sn : Nat) (dat : Bytes) (env : Env) (k : String)
+    (hk : k ∉ ["expected_seqnum", "bytes_to_receive", "self.timer_rx_cf", "self.timer_rx_cf.start_time",
+      "self.timer_rx_cf.timeout", "self.last_seqnum", "self.rx_buffer"]) : cf5Env s sn dat env k = env k := by
+  simp only [List.mem_cons, List.not_mem_nil, or_false, not_or] at hk
+  obtain ⟨h1, h2, h3, h4, h5, h6, h7⟩ := hk
+  simp only [cf5Env, btrEnv, seqEnv, startCfEnv, timerStartEnv, set_apply, *, if_false]
+
+/-- WAIT_CF, expected Consecutive Frame that completes the payload: delivered, back to IDLE -/
+theorem sm_cf_wait_complete (hR : Rep s env) (hC : Consts env) (hP : PduCtx d env)
+    (sn : Nat) (dat : Bytes) (hd : d.pdu = .cf sn dat) (hst : s.rxState = .waitCf) (hsn : sn = (s.lastSeq + 1) % 16)
+    (hinv : s.rxBuf.length ≤ s.rxFrameLen)
+    (hchg : ¬ (some d.rxDl != s.actualRxdl && decide (d.rxDl < btrOf s)) = true)
+    (hcompl : s.rxFrameLen ≤ (s.rxBuf ++ dat.take (btrOf s)).length)
+    (hitx : env "immediate_tx_msg_required" = some (pbool false)) :
+    SmOut (Ms s) env (((cf5St s sn dat).deliver (cf5St s sn dat).rxBuf).stopReceiving) true false := by
+  have h5 := rep_cf5 hR sn dat
+  have hbuf : cf5Env s sn dat env "self.rx_buffer" = some (.bytes (cf5St s sn dat).rxBuf) := h5.rxBuf
+  have hidle : cf5Env s sn dat env "self.RxState.IDLE" = some (.sc (.enum "RxState" "IDLE")) := by
+    rw [cf5Env_local _ _ _ _ _ (by decide)]; exact hC.idle
+  unfold SmOut
+  rw [cfw_prefix start data hR hC hP sn dat hd hst, if_pos hsn, cfOk_run start data hR hP sn dat hd hinv, if_neg hchg, if_pos hcompl]
+  simp only [complBlk, complStmt, cfOk, seqStmt, cfW, thenOf, elseOf, waitDispatch, bhead, bdrop, waitBlk, waitStmt, st5, body,
+    Src.TransportLayerLogic_p_process_rx]
+  rx_eval [hbuf, hidle]
+  refine ⟨_, rfl, ?_, ?_, ?_⟩
+  · exact ((h5.setLocal "frame_complete" _ (by decide)).put _).stopRecv
+  · loc_tac2
+  · simp (disch := decide) only [set_apply, String.reduceEq, ↓reduceIte, cf5Env_local, hitx]
+
+
+theorem mod_ev (a b : Nat) (hb : 0 < b) :
+    evalBinop .mod (pint (a : Int)) (pint (b : Int)) = .ok (pint ((a % b : Nat) : Int)) := by
+  rw [evalBinop_nonneg _ _ _ (Int.natCast_nonneg _) (Int.natCast_nonneg _)]
+  have : ¬ b = 0 := by omega
+  simp [this]
+
+/-- the model state after `self.rx_block_counter += 1` -/
+def cf6St (s : State) (sn : Nat) (dat : Bytes) : State := { cf5St s sn dat with rxBlockCnt := (cf5St s sn dat).rxBlockCnt + 1 }
+
+theorem moreBlk_shape : moreBlk =
+    .cons (.assign "self.rx_block_counter" (.binop .add (.var "self.rx_block_counter") (.int (1))))
+    (.cons (.ite (.and_ (.cmp .gt (.var "self.params.blocksize") (.int (0)))
+        (.cmp .eq (.binop .mod (.var "self.rx_block_counter") (.var "self.params.blocksize")) (.int (0))))
+      (.cons (.expr (.call "self._request_tx_flowcontrol" (.cons (.var "PDU.FlowStatus.ContinueToSend") .nil)))
+      (.cons (.expr (.call "self.timer_rx_cf.stop" .nil))
+      (.cons (.assign "immediate_tx_msg_required" .tt) .nil))) .nil) .nil) := rfl
+
+/-- WAIT_CF, expected Consecutive Frame, payload not complete: the block counter; at a block boundary a Flow Control is requested
+    and the timer is stopped -/
+theorem sm_cf_wait_more (hR : Rep s env) (hC : Consts env) (hP : PduCtx d env)
+    (sn : Nat) (dat : Bytes) (hd : d.pdu = .cf sn dat) (hst : s.rxState = .waitCf) (hsn : sn = (s.lastSeq + 1) % 16)
+    (hinv : s.rxBuf.length ≤ s.rxFrameLen)
+    (hchg : ¬ (some d.rxDl != s.actualRxdl && decide (d.rxDl < btrOf s)) = true)
+    (hcompl : ¬ s.rxFrameLen ≤ (s.rxBuf ++ dat.take (btrOf s)).length)
+    (hfc : env "frame_complete" = some (pbool false)) (hitx : env "immediate_tx_msg_required" = some (pbool false)) :
+    if (decide (s.cfg.blocksize > 0) && decide ((s.rxBlockCnt + 1) % s.cfg.blocksize = 0)) = true then
+      SmOut (Ms s) env { (cf6St s sn dat).requestFc 0 with timerCf := ((cf6St s sn dat).requestFc 0).timerCf.stop } false true
+    else SmOut (Ms s) env (cf6St s sn dat) false false := by
+  have h5 := rep_cf5 hR sn dat
+  have hcnt : cf5Env s sn dat env "self.rx_block_counter" = some (pint s.rxBlockCnt) := h5.rxBlockCnt
+  have hbs : cf5Env s sn dat env "self.params.blocksize" = some (pint s.cfg.blocksize) := h5.blocksize
+  have hcts : cf5Env s sn dat env "PDU.FlowStatus.ContinueToSend" = some (pint 0) := by
+    rw [cf5Env_local _ _ _ _ _ (by decide)]; exact hC.cts
+  have hcast : ((s.rxBlockCnt : Int) + 1) = ((s.rxBlockCnt + 1 : Nat) : Int) := by omega
+  have h6 : Rep (cf6St s sn dat) ((cf5Env s sn dat env).set "self.rx_block_counter" (pint ((s.rxBlockCnt + 1 : Nat) : Int))) := by
+    unfold cf6St; rep_tac h5
+  have hpre : execStmt (Ms s) env st5 = execBlock (Ms s) (cf5Env s sn dat env) moreBlk := by
+    rw [cfw_prefix start data hR hC hP sn dat hd hst, if_pos hsn, cfOk_run start data hR hP sn dat hd hinv, if_neg hchg,
+      if_neg hcompl]
+  unfold SmOut
+  rw [hpre, moreBlk_shape]
+  by_cases hb : s.cfg.blocksize > 0
+  · have hb' : decide ((0 : Int) < (s.cfg.blocksize : Int)) = true := by simp only [decide_eq_true_eq]; omega
+    by_cases hm : (s.rxBlockCnt + 1) % s.cfg.blocksize = 0
+    · simp only [hb, hm, decide_true, Bool.and_self, if_true]
+      rx_eval [hcnt, hbs, hcts, evalBinop_add, hcast, cmp_gt_pint, hb', mod_ev _ _ hb, hm, cast_beq_zero, beq_self_eq_true]
+      refine ⟨_, rfl, ?_, ?_, ?_⟩
+      · exact ((h6.reqFc 0).timerStop).setLocal _ _ (by decide)
+      · simp (disch := decide) only [set_apply, String.reduceEq, ↓reduceIte, cf5Env_local, hfc]
+      · loc_tac
+    · have hm' : ((s.rxBlockCnt + 1) % s.cfg.blocksize == 0) = false := by simp [hm]
+      simp only [hb, hm, decide_true, decide_false, Bool.and_false, Bool.false_eq_true, if_false]
+      rx_eval [hcnt, hbs, hcts, evalBinop_add, hcast, cmp_gt_pint, hb', mod_ev _ _ hb, hm', cast_beq_zero]
+      refine ⟨_, rfl, h6, ?_, ?_⟩
+      · simp (disch := decide) only [set_apply, String.reduceEq, ↓reduceIte, cf5Env_local, hfc]
+      · simp (disch := decide) only [set_apply, String.reduceEq, ↓reduceIte, cf5Env_local, hitx]
+  · have hb' : decide ((0 : Int) < (s.cfg.blocksize : Int)) = false := by simp only [decide_eq_false_iff_not]; omega
+    simp only [hb, decide_false, Bool.false_and, Bool.false_eq_true, if_false]
+    rx_eval [hcnt, hbs, evalBinop_add, hcast, cmp_gt_pint, hb']
+    refine ⟨_, rfl, h6, ?_, ?_⟩
+    · simp (disch := decide) only [set_apply, String.reduceEq, ↓reduceIte, cf5Env_local, hfc]
+    · simp (disch := decide) only [set_apply, String.reduceEq, ↓reduceIte, cf5Env_local, hitx]
+
+
+/-- WAIT_CF, expected Consecutive Frame whose RX_DL changed and is too small: `ChangingInvalidRXDLError`, the frame is ignored
+    (`_process_rx` returns from inside the state machine) -/
+theorem sm_cf_wait_changing (hR : Rep s env) (hC : Consts env) (hP : PduCtx d env)
+    (sn : Nat) (dat : Bytes) (hd : d.pdu = .cf sn dat) (hst : s.rxState = .waitCf) (hsn : sn = (s.lastSeq + 1) % 16)
+    (hinv : s.rxBuf.length ≤ s.rxFrameLen)
+    (hchg : (some d.rxDl != s.actualRxdl && decide (d.rxDl < btrOf s)) = true) :
+    ∃ env', execStmt (Ms s) env st5 = .ok (.returned (.list [.py (.bool false), .py (.bool false)]) env') ∧
+      Rep (s.error .ChangingInvalidRXDL) env' := by
+  rw [cfw_prefix start data hR hC hP sn dat hd hst, if_pos hsn, cfOk_run start data hR hP sn dat hd hinv, if_pos hchg]
+  exact ⟨_, rfl, ((hR.setLocal "expected_seqnum" _ (by decide)).setLocal "bytes_to_receive" _ (by decide)).trig .ChangingInvalidRXDL⟩
+
+
+end cfwait
+
 end Rx
 
 end Isotp.PyAgree
